@@ -293,6 +293,72 @@ fn oid(m: &Model, ctx: &mut Ctx, ev: &Evaluator) {
                 }
             }
         }
+        // name(number) form: the explicit number is the arc; a well-known name is only consulted for a bare name
+        struct C {
+            out: Vec<syn::ExprClosure>,
+        }
+        impl model::DeepCb for C {
+            fn expr(&mut self, e: &syn::Expr) {
+                if let syn::Expr::Closure(c) = e {
+                    if tok(&c.body).contains("well_known(") {
+                        self.out.push(c.clone());
+                    }
+                }
+            }
+        }
+        let mut c = C { out: vec![] };
+        model::deep_walk_block(&g.block, &mut c);
+        if c.out.len() != 1 {
+            ctx.fail_closed("C07.oid", "format_oid: the closure resolving well-known arc names was not found");
+        } else {
+            let consts = const_resolver(m);
+            let hook = |_: &Evaluator, name: &str, args: &[Val]| -> Option<Result<Val, String>> {
+                if name.ends_with("well_known") {
+                    // a bare name known to X.660 resolves to the sentinel 777, an unknown one to None
+                    return Some(Ok(match args.first() {
+                        Some(Val::Ctor(s, p, _)) if s == "Some" && matches!(p.first(), Some(Val::Str(n)) if n == "standard") => Val::some(Val::int(777)),
+                        _ => Val::none(),
+                    }));
+                }
+                None
+            };
+            let ev2 = Evaluator { consts: &consts, call_hook: &hook, inline: None };
+            let clo = syn::Expr::Closure(c.out[0].clone());
+            let arc = |name: Option<&str>, number: Option<i128>| {
+                let mut f = BTreeMap::new();
+                f.insert("name".to_string(), name.map(|n| Val::some(Val::Str(n.into()))).unwrap_or(Val::none()));
+                f.insert("number".to_string(), number.map(|n| Val::some(Val::int(n))).unwrap_or(Val::none()));
+                Val::Ctor("ObjectIdentifierArc".into(), vec![], f)
+            };
+            let mut env = Env::new();
+            env.insert("root".into(), Val::some(Val::int(1)));
+            for (name, number, want, what) in [
+                (Some("standard"), Some(7i128), Some(7i128), "name(number) with a well-known name keeps the written number"),
+                (Some("standard"), Some(0), Some(0), "name(number) with a well-known name keeps the written number"),
+                (Some("standard"), None, Some(777), "a bare well-known name is resolved"),
+                (Some("acme"), Some(99999), Some(99999), "name(number) with an unknown name keeps the number"),
+                (Some("acme"), None, None, "a bare unknown name stays a reference"),
+                (None, Some(5), Some(5), "number form"),
+            ] {
+                let key = format!("arc-form:{:?}/{:?}", name, number);
+                ctx.oblige("C07.oid", &key, true);
+                match ev2.apply_closure(&clo, &[arc(name, number)], &env) {
+                    Ok(Val::Ctor(_, _, f)) => {
+                        let got = match f.get("number") {
+                            Some(Val::Ctor(s, p, _)) if s == "Some" => match p.first() { Some(Val::Int { v, .. }) => Some(*v), _ => Some(-1) },
+                            Some(Val::Ctor(s, _, _)) if s == "None" => None,
+                            _ => Some(-1),
+                        };
+                        if got != want {
+                            ctx.violate("C07.oid", &format!("arc-form:{}", if number.is_some() { "name-and-number" } else { "bare-name" }), &g.file, span_line(&c.out[0]),
+                                &format!("{}: arc {:?}({:?}) becomes {:?}, expected {:?} (X.680 §32: in NameAndNumberForm the number is the arc value)", what, name, number, got, want));
+                        }
+                    }
+                    Ok(o) => ctx.fail_closed("C07.oid", &format!("[{}]: {}", key, o.show())),
+                    Err(e) => ctx.fail_closed("C07.oid", &format!("[{}]: {}", key, e)),
+                }
+            }
+        }
     }
 }
 
